@@ -1050,6 +1050,7 @@ def hline_fn(ctx: "Wtp", token: str) -> None:
         node = ctx.parser_stack[-1]
         if node.kind in (
             NodeKind.ROOT,
+            NodeKind.LEVEL1,
             NodeKind.LEVEL2,
             NodeKind.TABLE,
             NodeKind.TABLE_CAPTION,
